@@ -7,7 +7,7 @@
 (***************************************************************************)
 EXTENDS Integers, Sequences, FiniteSets, TLC
 Upto(n) == [i \in 1..n |-> i]
-CountBad(cs) == Cardinality({c \in 1..Len(cs) : cs[c].fault.kind \in {"bad", "badbody"}})
+CountBad(cs) == Cardinality({c \in 1..Len(cs) : cs[c].fault.kind \in {"bad", "badbody", "toodeep"}})
 Reasons(e) ==
   IF e.died THEN <<"process-died">> ELSE
      (IF e.accepted # Len(e.conns) THEN <<"connection-not-accepted">> ELSE <<>>)
